@@ -654,7 +654,7 @@ def run(tier, seed, replay=None):
     extra = [from_json(c["formula"]) for c in corpus if c.get("kind") == "norm"]
     if rep is not None:
         extra = [from_json(rep["formula"])] if rep.get("kind") == "norm" else []
-    n1 = 0 if rep is not None else (6000 if not thorough else 40000)
+    n1 = 0 if rep is not None else (8000 if not thorough else 40000)
     sys.path.insert(1, C.REPO)
     x1 = x1_cases(rng, n1, extra, cap_alts=400 if thorough else 120)
     terms1, kept1 = [], []
@@ -710,8 +710,8 @@ def run(tier, seed, replay=None):
                         # a single Spec is not a group for match/await; `when <flow>` still goes through the group code
                         continue
                     if k == 4 and kind != "match" and not thorough:
-                        # quick tier: every shape, a seeded sample of 72 of the 360 orders (thorough: all)
-                        add_job(kind, f, orders(range(k), fi % k, limit=72, rng=rng), f"all-shapes-{k}-sampled-orders")
+                        # quick tier: every shape, a seeded sample of 120 of the 360 orders (thorough: all)
+                        add_job(kind, f, orders(range(k), fi % k, limit=120, rng=rng), f"all-shapes-{k}-sampled-orders")
                     else:
                         add_job(kind, f, orders(range(k), fi % k), f"all-shapes-{k}")
         # groups in which one atom occurs twice (an atom shared by alternatives / members)
@@ -723,7 +723,7 @@ def run(tier, seed, replay=None):
                     m[j] = i
                     ren = {a: n for n, a in enumerate(sorted(set(m)))}
                     shared.append(relabel(f, [ren[x] for x in m]))
-        n_sh = len(shared) if thorough else 36
+        n_sh = len(shared) if thorough else 60
         for fi, f in enumerate(rng.sample(shared, min(n_sh, len(shared)))):
             ats = sorted(set(atoms_of(f)))
             for kind in KINDS:
